@@ -204,7 +204,11 @@ fn check_cell(method: &str, status: u16, v11: bool, cl: Option<&str>, te: Option
         (Seen::Cleanup, After::Cleanup) => true,
         _ => false,
     };
-    if !flow_ok {
+    if let Seen::Other(o) = &fseen {
+        // the cell could not be driven to the decision point (head not consumed exactly, proceed refused ...):
+        // that is another property's failure, this cell is undecided
+        fails.push(("C06:harness:flow".into(), format!("{}: {}", cell, o)));
+    } else if !flow_ok {
         let k = match (&fseen, want_after) {
             (Seen::Error(_), _) => "unexpected-error",
             (_, After::Error) => "bad-length-tolerated",
@@ -225,7 +229,9 @@ fn check_cell(method: &str, status: u16, v11: bool, cl: Option<&str>, te: Option
         (Seen::Body(m), w) if w != Framing::Error => *m == fmt_framing(w),
         _ => false,
     };
-    if !call_ok {
+    if let Seen::Other(o) = &cseen {
+        fails.push(("C06:harness:call".into(), format!("{}: {}", cell, o)));
+    } else if !call_ok {
         fails.push(("C06:call:wrong-framing".into(), format!("{}: expected {}, single-call API did {:?}", cell, fmt_framing(want), cseen)));
     }
     let sc = match status {
